@@ -106,7 +106,8 @@ def gen_spec(rng, i):
         return {'seed': rng.randrange(1 << 30), 'cin': cin, 'hw': hw, 'wbits': rng.choice([2, 4, 8]), 'abits': rng.choice([2, 4, 8]),
                 'layers': layers, 'head': head, 'kwargs': kw, 'shape': shape, 'bias_mode': bias_mode,
                 'clip_lo': rng.choice([0.4, 0.4, 0.05]), 'clip_hi': 8.0,
-                'amix': rng.choice([None, None, [2, 4, 8], [2, 4, 8], [4, 8], [2, 8]])}
+                'amix': rng.choice([None, None, [2, 4, 8], [2, 4, 8], [4, 8], [2, 8]]),
+                'stale': rng.choice([None, None, None, 'inplace', 'load_state_dict'])}
     raise RuntimeError('no valid spec')
 
 
@@ -129,6 +130,10 @@ def features(spec):
             fs.add('conv-no-bias')
     if spec.get('amix'):
         fs.add('mixed-act-precisions')
+    if spec.get('stale'):
+        fs.add('weights-changed-after-last-forward:' + spec['stale'])
+    if spec.get('seq') is not None:
+        fs.add('call-sequence')
     if spec['head'] is None:
         fs.add('fullyconv')
     else:
@@ -178,7 +183,7 @@ def oracle_net(res, fail):
     """the sentences of the property on the implementation's observations; fail(key, what, info)"""
     spec = res['spec']
     be = spec['backend']
-    base = {'spec': spec}
+    base = {'spec': spec, 'prior_calls': res.get('prior_calls')}
     if res['status'] != 'ok':
         if res['status'].startswith('EXC-export'):
             return      # not the property's subject (C03/C13 territory); counted by the caller
@@ -245,6 +250,23 @@ def oracle_net(res, fail):
         if be == 'MAUPITI' and rec['conv'] and rec.get('pad_value') is not None and rec['geo']['pad'] != [0, 0]:
             if rec['pad_value'] != -q['z_in']:
                 fail('maupiti-mixed-activation-precision:pad-value' if (not rec['last'] and rec['p_in'] != rec['p_out']) else 'maupiti-pad-value', 'layer %s: padding value %s is not the offset image -%d of an unsigned zero' % (n, rec['pad_value'], q['z_in']), info)
+        # scale/2^shift approximates s_w*s_x/s_y of the CURRENT weights: the search result at that shift (C14_scale_close)
+        ub = 2 ** (sb - 1)
+        for c in range(rec['cout']):
+            t = q['sw'][c] * q['sx'] / q['sy']
+            a = Fraction(q['scale'][c], 2 ** q['sh'])
+            ftol = t * Fraction(1, 2 ** 21)
+            if t * 2 ** q['sh'] > ub * (1 + Fraction(1, 2 ** 21)):
+                okc = q['scale'][c] == ub
+            elif t * 2 ** q['sh'] >= ub * (1 - Fraction(1, 2 ** 21)):
+                okc = True
+            else:
+                okc = -ftol <= a - t < Fraction(1, 2 ** q['sh']) + ftol
+            if not okc:
+                fail('scale-not-approximating-target:%s:%s' % (be, kind),
+                     'layer %s channel %d: scale %d / 2^%d = %.9g does not approximate s_w*s_x/s_y = %.9g of the layer\'s current weights within 2^-shift (stored s_w %.9g, weight quantizer scale of the current weights %.9g)'
+                     % (n, c, q['scale'][c], q['sh'], float(a), float(t), rec['s_w'][c], rec['fq_s_w'][c]), dict(info, channel=c))
+                break
         # per element
         for s in rec['samples']:
             c = s['c']
@@ -277,8 +299,8 @@ def oracle_net(res, fail):
                     acc = F_(acc)
                     ftol = (F_(aabs) + abs(Bc) + 1) * sxsw * Fraction(rec['nterms'] + 8, 2 ** 22)
                     if be == 'MATCH':
-                        ok = abs(F_(yi) * sxsw - F_(yf)) <= ftol
-                        req = 'int_out * s_x * s_w = real logits'
+                        ok = abs(F_(yi) * F_(rec['s_x'][0]) * F_(rec['s_w'][c]) - F_(yf)) <= ftol
+                        req = 'int_out * (the layer\'s s_x) * (the layer\'s s_w) = real logits'
                     else:
                         ok = abs(F_(yi) - F_(yf)) <= abs(acc + Bc) * abs(a - sxsw) + ftol + (F_(aabs) + abs(Bc) + q['z_in'] * (1 + abs(q['sumW'][c]))) * a * Fraction(1, 2 ** 20)
                         req = 'int_out = real logits up to |acc+B|*|scale/2^shift - s_x s_w|'
@@ -400,6 +422,13 @@ def run(ctx):
          'layers': [dict(kind='conv', cout=3, k=[3, 3], stride=[1, 1], pad=[1, 1], dil=[1, 1], dw=False, bias=True, bn=True, feat='plain'),
                     dict(kind='conv', cout=4, k=[3, 3], stride=[1, 1], pad=[1, 0], dil=[1, 1], dw=False, bias=True, bn=False, feat='apad')],
          'head': {'pool': False, 'bias': True, 'out': 3, 'hidden': 5, 'hidden_bias': False}},
+        {'seed': 21, 'cin': 2, 'hw': [4, 4], 'wbits': 8, 'abits': 8, 'kwargs': {}, 'shape': 'corpus', 'bias_mode': 'all', 'clip_lo': 0.4, 'clip_hi': 8.0, 'stale': 'load_state_dict',
+         'layers': [dict(kind='conv', cout=3, k=[3, 3], stride=[1, 1], pad=[1, 1], dil=[1, 1], dw=False, bias=True, bn=False, feat='plain')],
+         'head': {'pool': False, 'bias': True, 'out': 3, 'hidden': 5, 'hidden_bias': True}},
+        {'seed': 22, 'cin': 2, 'hw': [4, 4], 'wbits': 4, 'abits': 8, 'kwargs': {}, 'shape': 'corpus', 'bias_mode': 'mixed', 'clip_lo': 0.4, 'clip_hi': 8.0, 'stale': 'inplace',
+         'layers': [dict(kind='conv', cout=3, k=[3, 3], stride=[1, 1], pad=[1, 1], dil=[1, 1], dw=True, bias=True, bn=False, feat='plain'),
+                    dict(kind='conv', cout=4, k=[1, 1], stride=[1, 1], pad=[0, 0], dil=[1, 1], dw=False, bias=False, bn=False, feat='plain')],
+         'head': {'pool': True, 'bias': False, 'out': 2, 'hidden': 3, 'hidden_bias': False}},
         {'seed': 15, 'cin': 2, 'hw': [6, 6], 'wbits': 8, 'abits': 8, 'kwargs': {}, 'shape': 'corpus', 'bias_mode': 'all', 'clip_lo': 0.4, 'clip_hi': 8.0,
          'layers': [dict(kind='conv', cout=3, k=[3, 3], stride=[1, 1], pad=[1, 1], dil=[1, 1], dw=False, bias=True, bn=False, feat='plain'),
                     dict(kind='conv', cout=2, k=[3, 3], stride=[1, 1], pad=[0, 0], dil=[1, 1], dw=False, bias=True, bn=False, feat='plain')],
@@ -427,16 +456,30 @@ def run(ctx):
             s['head'] = {'pool': True, 'bias': True, 'out': 2}
             s['layers'] = s['layers'][:1]
             unsupported.append(with_backend(s, 'MATCH'))
+    # sequences of integerize_arch calls in ONE process with different backend_kwargs: explicit -> omitted -> explicit other
+    seqjobs = []
+    opts = [{'scale_bit': 32, 'shift_pos': 32}, {'scale_bit': 8, 'shift_pos': 16}, {'scale_bit': 4, 'shift_pos': 8}, {'scale_bit': 16, 'shift_pos': 32},
+            {'scale_bit': 32}, {'shift_pos': 32}, {'scale_bit': 12}, {'shift_pos': 8}]
+    for i in range(3 if ctx.quick else 16):
+        sq = gen_spec(ctx.rng, 2 * 10 ** 6 + i)
+        sq['stale'] = None
+        first = {'scale_bit': 32, 'shift_pos': 32} if i == 0 else ctx.rng.choice(opts)
+        sq['seq'] = [first, {}] + [ctx.rng.choice(opts + [{}, {}]) for _ in range(ctx.rng.randint(1, 3))] + [{}]
+        sq['maxpos'] = 10
+        seqjobs.append(with_backend(sq, 'MATCH'))
     apcases = [gen_approx_case(ctx.rng) for _ in range(nap)]
     bscases = [gen_bs_case(ctx.rng) for _ in range(nbs)]
 
     nw = min(NPROC, 12)
     with ProcessPoolExecutor(nw) as ex:
-        results = list(ex.map(c14_net.run_net, jobs + unsupported, chunksize=1))
+        results = list(ex.map(c14_net.run_net, jobs + unsupported + seqjobs, chunksize=1))
         apres = list(ex.map(c14_net.run_approx_direct, apcases, chunksize=40))
         bsres = list(ex.map(c14_net.run_bs_direct, bscases, chunksize=200))
-    unres = results[len(jobs):]
+    seqres = results[len(jobs) + len(unsupported):]
+    unres = results[len(jobs):len(jobs) + len(unsupported)]
     results = results[:len(jobs)]
+    for sr in seqres:        # one result per integerize_arch call of the sequence (same process, in order)
+        results += sr['seq_results'] if sr['status'] == 'seq' else [sr]
 
     # ------------------------------------------------------------------ bookkeeping + oracle
     nlayers = 0
@@ -529,6 +572,11 @@ def run(ctx):
                     q = layer_quantities(rec, be)
                     inf = {'spec': spec, 'layer': rec['name']}
                     sb, sp = rec['scale_bit'], rec['shift_pos']
+                    ctx.corr += 3
+                    if rec['s_w'] != rec['fq_s_w'] or rec['target_layer'] != rec['target']:
+                        mism.append(('stored s_w / approximated target vs the weight quantizer on the current weights', inf, (rec['s_w'][:4], rec['target_layer'][:4]), (rec['fq_s_w'][:4], rec['target'][:4])))
+                    if (rec['attr_scale_bit'], rec['attr_shift_pos']) != (sb, sp):
+                        mism.append(('scale_bit/shift_pos of the layer vs the options of this call (defaults when omitted)', inf, (rec['attr_scale_bit'], rec['attr_shift_pos']), (sb, sp)))
                     # (a) scale / shift selection
                     impl = ('Some', (q['scale'], q['sh']))
 
@@ -719,7 +767,13 @@ def replay(r):
     setup_torch()
     fails = []
     if 'spec' in r:
+        if r.get('prior_calls'):
+            print('re-creating the process history: %d earlier integerize_arch calls %s' % (len(r['prior_calls']), r['prior_calls'][-4:]))
+            c14_net.warm(r['prior_calls'])
         res = c14_net.run_net(r['spec'])
+        if res['status'] == 'seq':
+            print('sequence of backend_kwargs in one process: %s; failing call: #%d' % (r['spec']['seq'], r['spec'].get('seq_index', 0)))
+            res = res['seq_results'][r['spec'].get('seq_index', 0)]
         print('replayed: backend %s status %s %s' % (r['spec']['backend'], res['status'], res.get('where', '')))
         for rec in res.get('layers', []):
             print('  layer %s: int out shape %s fq shape %s scale %s shift %s max distance to the counterpart codes %s'
